@@ -172,3 +172,57 @@ def address_reuse_history(run, judge, rounds):
     run.count("schema_objects_in_sequence", rounds)
     run.count("schema_objects_at_a_reused_address", reused)
 
+
+def edited_schema_history(run, judge, rounds):
+    """A schema object is used by the codec, then EDITED IN PLACE (a field appended to a struct, two field
+    ids exchanged, a field's type widened, an enumerator added), then used again: the codec must follow the
+    schema as it is at the time of the call.  The description given to the reference is edited alongside."""
+    import copy
+    from fcp.specs.struct_field import StructField
+    from fcp.specs import type as T
+    from fcp.specs.enum import Enumeration
+
+    r = run.rng_ns("codec", "edited", run.shard)
+    for k in range(rounds):
+        decls = [
+            shapes.mk_enum("Gear", r.choice([1, 2, 3])),
+            shapes.mk_struct("Pose", [("x", 0, ("i", r.choice([5, 8, 12]))), ("y", 1, ("u", r.choice([3, 8])))]),
+            shapes.mk_struct("Cfg", [("a", 2, ("u", 4)), ("g", 5, ("enum", "Gear")), ("p", 7, ("struct", "Pose")),
+                                     ("l", 9, ("dyn", ("struct", "Pose")))]),
+        ]
+        text = S.print_schema(decls)
+        res = parse(text)
+        if res.is_err():
+            run.violation("front end rejected a well-formed codec schema: %r" % (res.err(),), {"schema": text})
+            return
+        fcp = res.unwrap()
+        sch = S.Sch(decls)
+        for v in V.struct_values(r, sch, "Cfg", 1, {})[-2:]:
+            judge(fcp, sch, "Cfg", v, text, "edited|before")
+        edit = ["append-field", "swap-ids", "widen-field", "add-enumerator", "prepend-lowest-id"][k % 5]
+        decls = copy.deepcopy(decls)
+        pose = fcp.get_struct("Pose").unwrap()
+        dpose = [d for d in decls if d["name"] == "Pose"][0]
+        if edit == "append-field":
+            pose.fields.append(StructField("z", 2, T.SignedType("i7")))
+            dpose["fields"].append({"name": "z", "id": 2, "type": ("i", 7)})
+        elif edit == "prepend-lowest-id":
+            cfg = fcp.get_struct("Cfg").unwrap()
+            cfg.fields.append(StructField("first", 0, T.UnsignedType("u3")))
+            [d for d in decls if d["name"] == "Cfg"][0]["fields"].append({"name": "first", "id": 0, "type": ("u", 3)})
+        elif edit == "swap-ids":
+            pose.fields[0].field_id, pose.fields[1].field_id = pose.fields[1].field_id, pose.fields[0].field_id
+            dpose["fields"][0]["id"], dpose["fields"][1]["id"] = dpose["fields"][1]["id"], dpose["fields"][0]["id"]
+        elif edit == "widen-field":
+            pose.fields[1].type = T.UnsignedType("u19")
+            dpose["fields"][1]["type"] = ("u", 19)
+        else:
+            gear = fcp.get_enum("Gear").unwrap()
+            gear.enumeration.append(Enumeration("Top", 200, None))
+            [d for d in decls if d["name"] == "Gear"][0]["values"].append(("Top", 200))
+        sch2 = S.Sch(decls)
+        text2 = S.print_schema(decls) + "// reached by editing the parsed tree in place (%s) after it had been used\n" % edit
+        for v in V.struct_values(r, sch2, "Cfg", 2, {})[-3:]:
+            judge(fcp, sch2, "Cfg", v, text2, "edited|after %s" % edit)
+        run.count("schemas_edited_in_place_between_calls")
+
